@@ -215,7 +215,7 @@ ENL = ['enlarge_visible', 'enlarge_conforming', 'enlarge_combined']
 
 def tail(rng, enl='rand', probe=True):
     ops = ['dump']
-    if probe and rng.random() < 0.5:
+    if probe and rng.random() < 0.4:
         for _ in range(rng.randint(1, 3)):
             k = rng.choice(['visible_face', 'enlarge_face', 'enlarge_seg'])
             ops.append('%s %d' % (k, rng.choice([0, 0, 1, 2, 3, 5, 8, 11, -1, 400])))
@@ -224,11 +224,35 @@ def tail(rng, enl='rand', probe=True):
         enl = rng.choice([None, None] + ENL)
     if enl:
         ops += [enl, 'dump']
-    ops += ['visible', 'dump', 'verify', 'manifold', 'ratio', 'change', 'ledger']
+    ops += ['visible', 'dump', 'verify', 'manifold', 'ratio', 'change']
     if rng.random() < 0.4:
         ops.append('normdev')
-    ops += ['replace', 'dump', 'grid']
+    ops += ['ledger', 'replace', 'dump', 'grid']
     return ops
+
+
+# the sequences the library itself runs between ref_cavity_create and ref_cavity_free (ref_cavity_swap_tet_pass,
+# ref_collapse_to_remove_node1, ref_split_pass, ref_layer.c): after `note caller` the oracle requires a conforming result of
+# every accepted replace; after `note free` (arbitrary use of the API, e.g. the tri-first form_insert on a grid with tets)
+# only when the certificate `certOk` held
+CALLER_ENL = {'split': [None, 'enlarge_combined', 'enlarge_combined', 'enlarge_visible'],
+              'collapse': [None, 'enlarge_visible', 'enlarge_visible'],
+              'swap': [None, None, 'enlarge_combined'],
+              'ball': [None, 'enlarge_visible', 'enlarge_combined'],
+              'insert_tet': [None, 'enlarge_combined', 'enlarge_visible']}
+
+
+def cav(rng, kind, form, caller=True, enl='pick', probe=True):
+    """one cavity from form_* to replace; kind in split|collapse|swap|ball|insert|insert_tet"""
+    if enl == 'pick':
+        if caller and kind in CALLER_ENL and rng.random() < 0.85:
+            enl = rng.choice(CALLER_ENL[kind])
+        else:
+            enl = rng.choice([None] + ENL)
+            caller = caller and kind in CALLER_ENL and enl in CALLER_ENL[kind]
+    else:
+        caller = caller and kind in CALLER_ENL and enl in CALLER_ENL[kind]
+    return ['note caller' if caller else 'note free', form] + tail(rng, enl=enl, probe=probe)
 
 
 def with_grid_dumps(ops):
@@ -271,35 +295,28 @@ def session_star(rng, tag=None):
         if rng.random() < 0.3:
             mm, ll = metric_of(rng, rng.choice(['iso', 'aniso', 'full']), m)
             ops.append(metric_line(nn, mm, ll))
-        ops.append('form_split %d %d %d' % (n0, n1, nn))
-        ops += tail(rng)
+        ops += cav(rng, 'split', 'form_split %d %d %d' % (n0, n1, nn))
         # chain: collapse the new node back / ball of the new node / swap an edge of the new star
         nxt = rng.choice(['collapse_back', 'ball', 'swap', 'none'])
         if nxt == 'collapse_back':
-            ops.append('form_collapse %d %d' % (rng.choice([n0, n1] + ring[:2]), nn))
-            ops += tail(rng, enl=rng.choice([None, 'enlarge_visible']))
+            ops += cav(rng, 'collapse', 'form_collapse %d %d' % (rng.choice([n0, n1] + ring[:2]), nn))
         elif nxt == 'ball':
-            ops.append('form_ball %d' % nn)
-            ops += tail(rng)
+            ops += cav(rng, 'ball', 'form_ball %d' % nn)
         elif nxt == 'swap':
-            ops.append('form_swap %d %d %d' % (nn, rng.choice(ring), rng.choice([n0, n1] + ring)))
-            ops += tail(rng, enl=None)
+            ops += cav(rng, 'swap', 'form_swap %d %d %d' % (nn, rng.choice(ring), rng.choice([n0, n1] + ring)), caller=False)
     elif kind == 'swap':
         ops.append('node23 %d %d' % (n0, n1))
         ops.append('node23 %d %d' % (n1, rng.choice(ring)))
-        ops.append('form_swap %d %d %d' % (n0, n1, rng.choice(ring + ring + [n0, rng.randrange(nn)])))
-        ops += tail(rng, enl=rng.choice([None, None, None] + ENL))
+        node = rng.choice(ring + ring + [n0, rng.randrange(nn)])
+        ops += cav(rng, 'swap', 'form_swap %d %d %d' % (n0, n1, node), caller=node in ring)
         if rng.random() < 0.5:
             a, b = rng.sample(ring, 2)
-            ops.append('form_swap %d %d %d' % (a, b, rng.choice(ring + [n0, n1])))
-            ops += tail(rng, enl=None)
+            ops += cav(rng, 'swap', 'form_swap %d %d %d' % (a, b, rng.choice(ring + [n0, n1])), caller=False, enl=None)
     elif kind == 'collapse':
         a, b = rng.choice([(n0, n1), (ring[0], n0), (ring[1], ring[0]), (n1, ring[-1])])
-        ops.append('form_collapse %d %d' % (a, b))
-        ops += tail(rng, enl=rng.choice([None, 'enlarge_visible', 'enlarge_visible', 'enlarge_combined']))
+        ops += cav(rng, 'collapse', 'form_collapse %d %d' % (a, b))
     elif kind == 'ball':
-        ops.append('form_ball %d' % rng.choice([n0, n1] + ring))
-        ops += tail(rng)
+        ops += cav(rng, 'ball', 'form_ball %d' % rng.choice([n0, n1] + ring))
     else:
         site = rng.choice([n0, n1] + ring)
         m = add(verts[site], rand_vec(rng, 0.25))
@@ -308,10 +325,9 @@ def session_star(rng, tag=None):
         ops.append(node_line(m))
         protect = rng.choice([-1, -1, n0, n1] + ring)
         if kind == 'insert':
-            ops.append('form_insert %d %d %d %d' % (nn, site, protect, rng.choice([-1, -1, 1, 2, 3])))
+            ops += cav(rng, 'insert', 'form_insert %d %d %d %d' % (nn, site, protect, rng.choice([-1, -1, 1, 2, 3])))
         else:
-            ops.append('form_insert_tet %d %d %d' % (nn, site, protect))
-        ops += tail(rng)
+            ops += cav(rng, 'insert_tet', 'form_insert_tet %d %d %d' % (nn, site, protect))
     return ops
 
 
@@ -343,44 +359,38 @@ def session_box(rng, tag=None, ncav=None):
             r = rng.choice([0.0, 0.0, 0.1, 0.3, 0.6])
             m = add(m, rand_vec(rng, r))
             ops.append(node_line(m))
-            ops.append('form_split %d %d %d' % (a, b, nn))
+            ops += cav(rng, 'split', 'form_split %d %d %d' % (a, b, nn))
             nn += 1
-            ops += tail(rng, enl=rng.choice([None, 'enlarge_combined', 'enlarge_combined', 'enlarge_visible',
-                                             'enlarge_conforming']))
         elif kind == 'collapse':
-            ops.append('form_collapse %d %d' % (a, b))
-            ops += tail(rng, enl=rng.choice([None, 'enlarge_visible', 'enlarge_visible']))
+            ops += cav(rng, 'collapse', 'form_collapse %d %d' % (a, b))
         elif kind == 'swap':
             t = rng.choice(tets)
             o = rng.choice(OTHERS12)
             ops.append('node23 %d %d' % (t[o[0]], t[o[1]]))
-            ops.append('form_swap %d %d %d' % (t[o[0]], t[o[1]], t[o[2]]))
-            ops += tail(rng, enl=None)
+            # after earlier cavities the tet may be gone: then the third node need not be a neighbour of the edge any more
+            ops += cav(rng, 'swap', 'form_swap %d %d %d' % (t[o[0]], t[o[1]], t[o[2]]), caller=False)
         elif kind == 'swap12':
             # the candidate loop of ref_cavity_swap_tet_pass on one tet: form, check_visible, ratio, change
             t = rng.choice(tets)
             for o in OTHERS12:
                 ops += ['form_swap %d %d %d' % (t[o[0]], t[o[1]], t[o[2]]), 'visible', 'ratio', 'change', 'dump']
             o = rng.choice(OTHERS12)
-            ops.append('form_swap %d %d %d' % (t[o[0]], t[o[1]], t[o[2]]))
-            ops += tail(rng, enl=None, probe=False)
+            ops += cav(rng, 'swap', 'form_swap %d %d %d' % (t[o[0]], t[o[1]], t[o[2]]), caller=False, enl=None, probe=False)
         elif kind == 'ball':
-            ops.append('form_ball %d' % a)
-            ops += tail(rng)
+            ops += cav(rng, 'ball', 'form_ball %d' % a)
         elif kind in ('insert', 'insert_tet'):
             m = add(verts[a], rand_vec(rng, rng.choice([0.1, 0.3])))
             ops.append(node_line(m))
             if kind == 'insert':
-                ops.append('form_insert %d %d %d %d' % (nn, a, rng.choice([-1, -1, b]), rng.choice([-1, -1, 1, 2, 7])))
+                ops += cav(rng, 'insert', 'form_insert %d %d %d %d' % (nn, a, rng.choice([-1, -1, b]), rng.choice([-1, -1, 1, 2, 7])))
             else:
-                ops.append('form_insert_tet %d %d %d' % (nn, a, rng.choice([-1, -1, b])))
+                ops += cav(rng, 'insert_tet', 'form_insert_tet %d %d %d' % (nn, a, rng.choice([-1, -1, b])))
             nn += 1
-            ops += tail(rng, enl=rng.choice([None, 'enlarge_visible', 'enlarge_visible', 'enlarge_combined']))
         else:
             # a hand-made cavity: tets around an edge one by one, with and without the face id filter
             star = [i for i, x in enumerate(tets) if a in x and b in x]
             rng.shuffle(star)
-            ops += ['new', 'form %d' % rng.choice([a, b])]
+            ops += ['note free', 'new', 'form %d' % rng.choice([a, b])]
             for i in star:
                 if rng.random() < 0.5:
                     ops.append('add_tet %d' % i)
@@ -393,29 +403,77 @@ def session_box(rng, tag=None, ncav=None):
     return ops
 
 
+def session_surface(rng, tag=None):
+    """tris only (the regime of ref_cavity_surf_geom_*_pass and of ref_layer's form_insert): the boundary surface of a box or
+    of an edge star, or a planar twod square with edg cells; every cavity is a seg cavity"""
+    twod = rng.random() < 0.3
+    edgs = []
+    if twod:
+        v, t, e = meshgen.square_tris(rng.randint(2, 4), rng.randint(2, 4), rng, rng.choice([0.0, 0.2]),
+                                      patches=rng.choice(['sides', 'one']))
+        verts = [tuple(p) + (0.0,) for p in v]
+        tris = [tuple(x[:4]) for x in t]
+        edgs = [tuple(x[:3]) for x in e]
+    elif rng.random() < 0.5:
+        verts, tets, tris = box(rng, nmax=2)
+    else:
+        n = rng.randint(3, 8)
+        verts, tets = edge_star(rng, n, True)
+        tris = star_ids(rng, verts, tets, n, True, rng.choice(['one', 'one', 'edge', 'rand']))
+    ops = grid_ops(rng, verts, [], tris, tag='twod' if twod else tag)
+    for e in edgs:
+        ops.append('edg %d %d %d' % e)
+    nn = len(verts)
+    for _ in range(rng.randint(1, 4)):
+        t = rng.choice(tris)
+        kind = rng.choice(['ball', 'insert', 'insert', 'tri', 'swap', 'split'])
+        enl = rng.choice([None, 'enlarge_conforming', 'enlarge_conforming', 'enlarge_combined'])
+        if kind == 'ball':
+            ops += cav(rng, 'ball', 'form_ball %d' % t[0], caller=False, enl=enl)
+        elif kind == 'insert':
+            w = [rng.uniform(0.1, 1.0) for _ in range(3)]
+            m = tuple(sum(w[i] * verts[t[i]][k] for i in range(3)) / sum(w) for k in range(3))
+            ops.append(node_line(m))
+            ops += cav(rng, 'insert', 'form_insert %d %d %d %d' % (nn, t[0], rng.choice([-1, -1, t[1]]), rng.choice([-1, t[3]])),
+                       caller=False, enl=enl)
+            nn += 1
+        elif kind == 'tri':
+            # ref_cavity_surf_geom_edge_pass: form_empty, add_tri, enlarge_conforming, normdev, replace
+            ops += ['note free', 'new', 'form %d' % t[0], 'add_tri %d' % tris.index(t), 'dump', 'enlarge_conforming', 'dump',
+                    'normdev', 'manifold', 'ledger', 'replace', 'dump', 'grid']
+        elif kind == 'swap':
+            ops += ['node23 %d %d' % (t[0], t[1])]
+            ops += cav(rng, 'swap', 'form_swap %d %d %d' % (t[0], t[1], t[2]), caller=False, enl=enl)
+        else:
+            ops.append(node_line(mid(verts, t[0], t[1])))
+            ops += cav(rng, 'split', 'form_split %d %d %d' % (t[0], t[1], nn), caller=False, enl=enl)
+            nn += 1
+    return ops
+
+
 def session_twoface(rng, tag=None):
-    """boundary edge (n0,n1) with two same-id tris; a tet (n0,n1,p,x) of the star has a SECOND boundary face (n1,p,x)
+    """boundary edge (n0,n1) with two same-id tris; the tet (n0,n1,p,x) of the star has a SECOND boundary face (n1,p,x)
     with the same id (flat or slightly convex).  form_split, then enlarge_conforming / enlarge_combined: every unattached
     seg is non-conforming without CAD, so enlarge_seg -> add_tri -> remove_seg_add_tets reaches the tri on (n1,p,x)
-    while its tet is already listed."""
+    while its tet is already listed.  Variants: further tets (`wings`) behind the other lateral faces, one or two ids."""
+    # wall y = 0, domain y > 0: n0 = 0, n1 = 1, p = 2, q = 3, x = 4
     bend = rng.choice([0.0, 0.0, 0.05, 0.2, -0.05])
-    # boundary plane y = 0, domain y > 0; n0=(0,0,0) n1=(1,0,0) p=(0.5,0,0.9) q=(0.5,0,-0.9) x=(0.5,0.9,0) r=(1.6,bend,0.5)
-    verts = [(0.0, 0.0, 0.0), (1.0, 0.0, 0.0), (0.5, 0.0, 0.9), (0.5, 0.0, -0.9), (0.5, 0.9, 0.0), (1.6, bend, 0.6),
-             (1.5, 0.9, 0.4)]
-    tets = [orient(verts, t) for t in [(0, 1, 2, 4), (0, 1, 4, 3)]]
-    extra = rng.choice(['none', 'wing', 'wing2'])
-    if extra != 'none':
-        # wing: the face (n1,p,x) is interior (another tet behind it) and the second boundary tri of tet 0 does not exist;
-        # wing2: additionally a tet on (n1,p,r) so that the boundary goes on past p-n1
-        tets.append(orient(verts, (1, 2, 4, 6)))
-        if extra == 'wing2':
-            tets.append(orient(verts, (1, 2, 6, 5)))
-    mode = rng.choice(['one', 'one', 'fan'])
+    verts = [(0.0, 0.0, 0.0), (1.0, 0.0, 0.0), (0.5, bend, 0.9), (0.5, 0.0, -0.9), (0.5, 0.9, 0.0)]
+    tets = [orient(verts, (0, 1, 2, 4)), orient(verts, (0, 1, 4, 3))]
+    lateral = [((1, 2, 4), 0), ((0, 2, 4), 0), ((0, 4, 3), 1), ((1, 4, 3), 1)]
+    for k, (f, ti) in enumerate(lateral):
+        if rng.random() < (0.12 if k == 0 else 0.45):
+            cen = tuple(sum(verts[v][c] for v in f) / 3.0 for c in range(3))
+            tc = tuple(sum(verts[v][c] for v in tets[ti]) / 4.0 for c in range(3))
+            out = tuple(cen[c] - tc[c] for c in range(3))
+            ln = math.sqrt(sum(x * x for x in out))
+            verts.append(tuple(cen[c] + rng.uniform(0.5, 0.9) * out[c] / ln for c in range(3)))
+            tets.append(orient(verts, f + (len(verts) - 1,)))
+    two = rng.random() < 0.4
     tris = []
     for f in boundary_faces(tets):
-        ys = [verts[k][1] for k in f]
-        on_wall = all(abs(y) < 1e-12 for y in ys)
-        fid = 1 if (mode == 'one' or on_wall or set(f) == {1, 2, 4}) else 2
+        wall = set(f) in ({0, 1, 2}, {0, 1, 3})
+        fid = 1 if (wall or set(f) == {1, 2, 4} or not two or rng.random() < 0.5) else 2
         tris.append(f + (fid,))
     if rng.random() < 0.7:
         verts, tets, tris, p = scramble(rng, verts, tets, tris)
@@ -425,27 +483,29 @@ def session_twoface(rng, tag=None):
     nn = len(verts)
     m = mid(verts, p[0], p[1], 0.5)
     if rng.random() < 0.4:
-        m = add(m, (0.0, rng.choice([0.05, 0.2]), 0.0))
+        m = add(m, (0.0, rng.choice([0.05, 0.2]), rng.choice([0.0, 0.1])))
     ops.append(node_line(m))
-    ops.append('form_split %d %d %d' % (p[0], p[1], nn))
-    ops += ['dump', 'ledger', rng.choice(['enlarge_conforming', 'enlarge_combined']), 'dump', 'ledger', 'manifold', 'verify',
-            'visible', 'dump', 'ratio', 'change', 'ledger', 'replace', 'dump', 'grid']
+    ops += ['note caller', 'form_split %d %d %d' % (p[0], p[1], nn)]
+    ops += ['dump', 'ledger', rng.choice(['enlarge_conforming', 'enlarge_combined', 'enlarge_combined']), 'dump', 'ledger',
+            'manifold', 'verify', 'visible', 'dump', 'ratio', 'change', 'ledger', 'replace', 'dump', 'grid']
     return ops
 
 
 def gen_stars(rng, tier):
     ops = []
-    for _ in range(N(tier, 110, 500)):
+    for _ in range(N(tier, 1400, 2800)):
         ops += session_star(rng)
     return with_grid_dumps(ops)
 
 
 def gen_boxes(rng, tier):
     ops = []
-    for _ in range(N(tier, 40, 200)):
+    for _ in range(N(tier, 300, 600)):
         ops += session_box(rng)
-    for _ in range(N(tier, 12, 60)):
+    for _ in range(N(tier, 80, 160)):
         ops += session_twoface(rng)
+    for _ in range(N(tier, 200, 400)):
+        ops += session_surface(rng)
     return with_grid_dumps(ops)
 
 
@@ -516,7 +576,7 @@ def session_bad(rng):
 
 def gen_bad(rng, tier):
     ops = []
-    for _ in range(N(tier, 70, 300)):
+    for _ in range(N(tier, 250, 500)):
         ops += session_bad(rng)
     return ops
 
@@ -539,6 +599,8 @@ def oracle_fn(ops, impl):
     state = 0          # cavity state as last printed
     vol_checked = False   # the cavity reached VISIBLE through a volume test of the faces it has now
     bad_session = False
+    caller = False        # `note caller`: a sequence the library itself runs
+    cert = False          # the last `ledger` said certOk and nothing touched the cavity since
     for i, (op, line) in enumerate(zip(ops, impl)):
         w = op.split()
         lw = line.split()
@@ -546,9 +608,19 @@ def oracle_fn(ops, impl):
             continue
         k = w[0]
         if k == 'reset':
-            verts, before, state, vol_checked = {}, None, 0, False
+            verts, before, state, vol_checked, caller, cert = {}, None, 0, False, False, False
             bad_session = len(w) > 1 and w[1] == 'bad'
             continue
+        if k == 'note':
+            caller = len(w) > 1 and w[1] == 'caller'
+            continue
+        if k.startswith('form_') and line == 'bad-op':
+            caller = False       # an end of the edge is gone: what follows runs on the previous cavity
+        if k == 'ledger':
+            cert = lw == ['ok', '1', '1']
+            continue
+        if k in ('new', 'set_state', 'surf_node', 'form') or (k in ST_OPS and k not in ('visible', 'replace')):
+            cert = False
         if line == 'hang' and not bad_session:
             bad.append((i, 'ref_cavity_%s never returns (keep_growing set by a sweep that changes nothing)' % k))
         if k == 'node' and line.startswith('ok '):
@@ -566,8 +638,9 @@ def oracle_fn(ops, impl):
             tets, tris, edgs = parse_grid(line)
             if before is not None and before[2]:
                 bt, bs = before[0], before[1]
-                if conforming(bt, bs):
-                    cover = unsigned_cover(tets, tris)
+                if conforming(bt, bs) and before[4]:
+                    # the certificate alone gives the signed statement; the unsigned cover also needs the volume test
+                    cover = unsigned_cover(tets, tris) if (before[5] or before[3]) else {}
                     wrong = [f for f, c in cover.items() if not (c == [2, 0] or c == [1, 1])]
                     if wrong:
                         bad.append((i, 'after replace face %s is in %d tets and %d tris' %
@@ -594,13 +667,18 @@ def oracle_fn(ops, impl):
                                     break
                     except KeyError:
                         pass
-            before = [tets, tris, False, False]
+            before = [tets, tris, False, False, False, False]
         if k in ST_OPS and len(lw) == 2 and lw[0] in STATUS and lw[1].isdigit():
             new_state = int(lw[1])
             if k == 'replace':
                 if before is not None:
                     before[2] = lw[0] == 'ok'
                     before[3] = vol_checked
+                    before[4] = caller or cert
+                    before[5] = caller
+                    if caller and lw[0] == 'ok' and ops[i - 1] == 'ledger' and not cert:
+                        bad.append((i, 'library sequence accepted by ref_cavity_replace without the certificate '
+                                       '(listed cells live, faces non-degenerate, ledger balanced): %s' % impl[i - 1]))
             elif k in ('visible', 'enlarge_visible'):
                 if state == 0:
                     vol_checked = lw[0] == 'ok' and new_state == 1
@@ -623,4 +701,172 @@ BOXES = Stream('cavity2_boxes', 'h_cavity2', 'cavity2', gen_boxes, oracle=oracle
 BAD = Stream('cavity2_bad', 'h_cavity2', 'cavity2', gen_bad, oracle=oracle_fn, whitebox=['ref_cavity'],
              nontrivial=nontrivial, timeout=900)
 
-STREAMS = [STARS, BOXES, BAD]
+
+
+# ------------------------------------------------------------------ run level
+def rot_metric(rng, hs):
+    """R diag(1/h^2) R^T for a random rotation R"""
+    a, b, c = (rng.uniform(0, math.pi) for _ in range(3))
+    ca, sa, cb, sb, cc, sc = math.cos(a), math.sin(a), math.cos(b), math.sin(b), math.cos(c), math.sin(c)
+    r = [[cb * cc, sa * sb * cc - ca * sc, ca * sb * cc + sa * sc],
+         [cb * sc, sa * sb * sc + ca * cc, ca * sb * sc - sa * cc],
+         [-sb, sa * cb, ca * cb]]
+    d = [1.0 / h ** 2 for h in hs]
+    m = [[sum(r[i][k] * d[k] * r[j][k] for k in range(3)) for j in range(3)] for i in range(3)]
+    return [m[0][0], m[0][1], m[0][2], m[1][1], m[1][2], m[2][2]]
+
+
+def run_session(rng, passes, size=None):
+    n = size or [rng.randint(1, 3) for _ in range(3)]
+    v, t, s = meshgen.box_tets(n[0], n[1], n[2], rng, rng.choice([0.0, 0.3, 0.7]),
+                               patches=rng.choice(['sides', 'sides', 'one', 'split']))
+    verts = [tuple(p) for p in v]
+    tets = [tuple(x[:4]) for x in t]
+    tris = [tuple(x[:4]) for x in s]
+    if rng.random() < 0.5:
+        verts, tets, tris, _ = scramble(rng, verts, tets, tris)
+    ops = ['reset']
+    for p in verts:
+        ops.append(node_line(p))
+    kind = rng.choice(['iso', 'aniso', 'rot', 'rot', 'rotvar', 'rotvar'])
+    h = rng.choice([0.7, 1.5, 3.0]) / max(n)
+    an = rng.choice([1.0, 3.0, 3.0, 8.0])
+    hs = [h, h * an, h * math.sqrt(an)]
+    m_rot = rot_metric(rng, hs)
+    for i, p in enumerate(verts):
+        if kind == 'iso':
+            m = [1.0 / h ** 2, 0.0, 0.0, 1.0 / h ** 2, 0.0, 1.0 / h ** 2]
+        elif kind == 'aniso':
+            m = [1.0 / hs[0] ** 2, 0.0, 0.0, 1.0 / hs[1] ** 2, 0.0, 1.0 / hs[2] ** 2]
+        elif kind == 'rot':
+            m = m_rot
+        else:
+            m = rot_metric(rng, [x * rng.uniform(0.8, 1.25) for x in hs])
+        ops.append('metric %d %s' % (i, ' '.join(hx(x) for x in m)))
+    for c in tets:
+        ops.append('tet %d %d %d %d' % c)
+    for c in tris:
+        ops.append('tri %d %d %d %d' % c)
+    ops.append('run ' + passes)
+    return ops
+
+
+def gen_run(rng, tier):
+    ops = []
+    for _ in range(N(tier, 40, 80)):
+        ops += run_session(rng, rng.choice(['v', 'vv', 'v', 'vcv', 'svv']))
+    for _ in range(N(tier, 40, 80)):
+        ops += run_session(rng, rng.choice(['c', 'cc', 'cvc', 'sc', 'vsc']))
+    for _ in range(N(tier, 24, 48)):
+        ops += run_session(rng, rng.choice(['a', 'aa', 'ava', 'ac']), size=[rng.randint(1, 2) for _ in range(3)])
+    ops += ['run x', 'run', 'frobnicate']
+    return ops
+
+
+def parse_run_rec(line):
+    sec = line.split(' | ')
+    hw = sec[0].split()
+    r = {'phase': hw[1]}
+    for w in hw[2:]:
+        k, v = w.split('=')
+        r[k] = v
+    tab = {}
+    for s in sec[1:]:
+        ws = s.split()
+        tab[ws[0]] = ws[1:]
+    r['C'] = [int(x) for x in tab.get('C', [])]
+    r['T'] = sorted(tuple(int(x) for x in w.split(':')[1:]) for w in tab.get('T', []))
+    r['R'] = sorted(tuple(int(x) for x in w.split(':')[1:]) for w in tab.get('R', []))
+    r['F'] = [tuple(int(x) for x in w.split(',')) for w in tab.get('F', [])]
+    r['S'] = [tuple(int(x) for x in w.split(',')) for w in tab.get('S', [])]
+    r['xyz'] = {}
+    for w in tab.get('N', []):
+        f = w.split(':')
+        r['xyz'][int(f[0])] = tuple(unhx(x) for x in f[2:5])
+    return r
+
+
+def local_cover(centres, tets, tris):
+    """what can be decided from the dumped stars: the stars of the centre nodes are complete, so for every face with at
+    least one centre node ALL tets and tris on it are in the dump: it must be in two tets and no tri, or in one tet and
+    one tri; every dumped tri with a centre node must lie on exactly one tet"""
+    cs = set(centres)
+    out = []
+    cover = unsigned_cover(tets, tris)
+    for f, c in sorted(cover.items()):
+        if not (set(f) & cs):
+            continue
+        if not (c == [2, 0] or c == [1, 1]):
+            out.append('face %s is in %d tets and %d tris' % (f, c[0], c[1]))
+    return out
+
+
+def oracle_run(ops, impl):
+    out = []
+    begin = None
+    chain = None      # expected hash of the next begin inside ref_cavity_pass (None: not inside a cavity pass)
+    for i, line in enumerate(impl):
+        w = line.split()
+        if not w:
+            continue
+        if w[0] == 'pass':
+            if w[1] == 'begin':
+                chain = w[2]
+            else:
+                if chain is not None and w[2] != chain:
+                    out.append((0, 'line %d: grid hash at the end of ref_cavity_pass differs from the hash after the last '
+                                   'accepted replacement: a trial cavity left a trace' % i))
+                if len(w) > 3 and w[3] != 'ok':
+                    out.append((0, 'line %d: ref_cavity_pass returned %s' % (i, w[3])))
+                chain = None
+        elif w[0] == 'hash' or w[0] == 'rec':
+            ph = w[1]
+            h = w[2] if w[0] == 'hash' else [x for x in w if x.startswith('hash=')][0][5:]
+            if chain is not None:
+                if ph == 'begin' and h != chain:
+                    out.append((0, 'line %d: grid hash at cavity_replace begin differs from the hash after the previous '
+                                   'accept / at pass start: a rejected trial cavity left a trace' % i))
+                if ph == 'accept':
+                    chain = h
+            if w[0] == 'rec':
+                r = parse_run_rec(line)
+                if ph == 'begin':
+                    begin = r
+                elif ph == 'accept':
+                    where = 'line %d (accept node=%s)' % (i, r.get('node'))
+                    for m in local_cover(r['C'], r['T'], r['R'])[:3]:
+                        out.append((0, where + ': ' + m))
+                    if begin is None or begin.get('node') != r.get('node'):
+                        out.append((0, where + ': no begin record'))
+                    else:
+                        old = set(begin['T'])
+                        for t in r['T']:
+                            if t not in old:
+                                try:
+                                    v = fvol(r['xyz'], *t[:4])
+                                except KeyError:
+                                    out.append((0, where + ': tet %s uses a vertex that is not valid' % (t,)))
+                                    break
+                                if v <= Fraction(1e-15) / 2:
+                                    out.append((0, where + ': new tet %s has volume %s' % (t, float(v))))
+                                    break
+                        new_ids = set(t[3] for t in r['R'] if t not in set(begin['R']))
+                        old_ids = set(t[3] for t in begin['R'] if t not in set(r['R']))
+                        if not new_ids <= old_ids:
+                            out.append((0, where + ': new tris carry face ids %s, removed tris had %s' %
+                                        (sorted(new_ids), sorted(old_ids))))
+                    begin = None
+        elif w[0] == 'free':
+            if w[1:] == ['replaced=0', 'same=0']:
+                out.append((0, 'line %d: a cavity created and freed without a replacement changed the grid hash' % i))
+        elif w[0] == 'done':
+            if w[1] != 'ok':
+                out.append((0, 'line %d: a pass returned %s' % (i, w[1])))
+    return out[:20]
+
+
+RUN = Stream('cavity2_run', 'h_cavity2', 'cavity2', gen_run, oracle=oracle_run, kind='validate', whitebox=['ref_cavity'],
+             harness_args=('run',), driver_args=('replay',), session='reset',
+             nontrivial=lambda op, out: out.startswith('rec') or out.startswith('free'), timeout=900)
+
+STREAMS = [STARS, BOXES, BAD, RUN]
